@@ -84,7 +84,8 @@ inductive Clause
   | syntaxNestedDefinition | syntaxLabelOnDefinition
   | c6_7_1p7_blockFunctionStorage | c6_7_1p3_blockThreadLocal
   | c6_7p3_sameScopeKind | c6_7p3_noLinkageRedeclared | c6_7_9p5_blockExternInit
-  | c6_7_1p3_threadMismatchSameScope | c6_7_1p3_threadMismatchOtherScope
+  | c6_7_1p3_threadMismatchSameScope | c6_7_1p3_threadMismatchFileScope
+  | c6_7_1p3_threadMismatchUnseenBlockExtern
   | c6_9p3_internalRedefined
   | c6_2_7p2_kindAcrossScopes | c6_2_2p7_internalAndExternal | c6_9p5_externalRedefined
   | c6_7_4p7_inlineNeverDefined
@@ -119,8 +120,12 @@ def judge (f : Form) (A : List Decl) : Verdict :=
   -- undefined behaviour
   else if l ≠ .none ∧ L.any (fun d => d.form.kind ≠ f.kind) then .undefined .c6_2_7p2_kindAcrossScopes
   else if l ≠ .none ∧ L.any (fun d => d.link ≠ l) then .undefined .c6_2_2p7_internalAndExternal
+  else if f.kind = .obj ∧ l ≠ .none ∧
+      (A.filter Decl.atFile).any (fun d => d.form.kind = .obj ∧ d.form.flag ≠ f.flag) then
+    .violates .c6_7_1p3_threadMismatchFileScope
+  -- … or with a block-scope `extern` declaration that is not visible here
   else if f.kind = .obj ∧ l ≠ .none ∧ L.any (fun d => d.form.kind = .obj ∧ d.form.flag ≠ f.flag) then
-    .violates .c6_7_1p3_threadMismatchOtherScope
+    .violates .c6_7_1p3_threadMismatchUnseenBlockExtern
   else if f.scope = .file ∧ f.hasDef ∧ hasDefinition A then
     (if l = .intern then .violates .c6_9p3_internalRedefined else .undefined .c6_9p5_externalRedefined)
   -- assembler labels (extension)
